@@ -357,7 +357,7 @@ def run(ctx):
     for r in results:
         for sig, (case, exp, got, n) in sorted(r['viols'].items()):
             ctx.violation(sig, case, exp, got)
-            ctx.viol[sig]['occurrences'] += n - 1
+            ctx.add_occurrences(sig, n - 1)
     ctx.note('programs=%d executions=%d points=%d steps=%d multi-outcome programs=%d'
              % (len(results), ex, cov['states'], cov['transitions'], len(colliding)))
     ctx.assumptions += ['CPython 3.12 with the GIL: C-level dict/list operations are atomic; scheduling points are the '
